@@ -81,17 +81,22 @@ example : PathOk [97, 91, 48, 93] :=
 
 /-- the scanner and the evaluator do not depend on where an expression sits in the content:
 scanning `e}` alone and scanning it `k` units into a longer content (after a unit that cannot end
-an operand, no `{` inside) give the same list with text operands moved by `k`, and the two lists
-evaluate to the same number. -/
+an operand) give the same list with text and `{var:…}` operands moved by `k`, and the two lists
+evaluate to the same number when the two environments give every scanned `{…}` operand and its
+moved copy the same value (`scanVar`: offset + 5, length, and the scanner's loop-variable answer
+at that offset; no condition when the expression has no `{`). -/
 theorem scan_eval_relocatable {R : Type} [RealLike R] (cfg cfg' : ScanCfg R)
     (hrn : cfg'.readNum = cfg.readNum) {c c' : List Nat} {k : Nat} (h : Reloc c c' k)
-    (hno : ∀ (i x : Nat), c[i]? = some x → x ≠ 123) (off endO : Nat) (he : endO < c.length)
+    (off endO : Nat) (he : endO < c.length)
     (items : List (Item R)) (hp : parseTop cfg c off endO = .ok items)
-    (env env' : Env R) (henv : RelEnv env env' k) (hcont : env.content = c) :
+    (env env' : Env R) (henv : RelEnv env env' k) (hcont : env.content = c)
+    (hlk : ∀ o e, c[o]? = some 123 → o + 5 < e → c[e]? = some 125 →
+      env'.lookup (scanVar cfg' (k + o) (k + e)) = env.lookup (scanVar cfg o e)) :
     ∃ items', parseTop cfg' c' (k + off) (k + endO) = .ok items' ∧
       evaluateTop env' true items' = evaluateTop env true items := by
-  obtain ⟨items', h1, h2⟩ := parseTop_reloc cfg cfg' hrn h hno off endO he items hp
-  exact ⟨items', h1, (evaluateTop_reloc henv true items items' (by rw [hcont]; exact h2)).1⟩
+  obtain ⟨items', h1, h2⟩ := parseTop_relocV cfg cfg' hrn h
+    (fun v v' => env'.lookup v' = env.lookup v) hlk off endO he items hp
+  exact ⟨items', h1, (evaluateTop_reloc henv (fun _ _ hv => hv) true items items' (by rw [hcont]; exact h2)).1⟩
 
 /-- stages 2+3 of `RenderParsePrint`: templates made of text, `{var:path}`, `{raw:path}` and
 `{math:expression}` in any number and order.  Texts, paths and expressions are free of `{ < }`
